@@ -369,6 +369,8 @@ func runC16(r *Run) {
 	serveTCPStalls16(r, r.N(8, 120))
 	// ---- the transports' own read loops under adversarial chunking of several frames
 	clientReadLoops16(r, r.N(40, 600))
+	// ---- ... and with a frame announcing less than a DNS header between the reply frames
+	clientRuntFrames16(r, r.N(40, 500))
 	// ---- frames written by retries of the non-pipelined transport
 	reuseRetryFrames16(r, r.N(25, 300))
 	// ---- the real DoQ server over quic-go on loopback
@@ -376,7 +378,7 @@ func runC16(r *Run) {
 	// ---- DoQ streams carry exactly one frame per direction (RFC 9250 4.2)
 	doqScenarios(r, "C16", r.N(40, 400))
 	finishSlowDoQ16(r, slowDoQ)
-	r.Finish("boundary lengths {0..14,255..257,511,512,4095,4096,8188..8192,65533..65537,70000} + seeded lengths; every in-range write is read back under a seeded chunking (single chunk, 1-byte reads, split header, random, empty reads); read side: 40% valid frames, 20% announced<=12, 20% truncated, 20% random bytes, each under a chunking; packed messages around the 8191-byte scratch buffer; concurrent ServeTCP replies on a wrapped connection; ServeTCP over loopback TCP / net.Pipe with an 80-160 ms idle timeout fed frames cut inside the header / body / at embedded framed data, with pauses beyond the timeout while a query is in flight (only framed messages may reach the handler; also replayed on Model.C16.serve) and, with a 5 s timeout, without pauses (every frame handled and answered); the real ServeDoQ over quic-go: one frame per stream, and with handlers returning 2.25-2.9 s after the stream was accepted (beyond the 2 s stream deadline), replies of 9-50 KB against a 1-8 KiB client stream window and clients that start reading 2.3-2.8 s late, all in flight together: every reply the handler returned arrives as exactly one frame before FIN (also replayed on Model.C16.doqStream); non-trivial = not (valid frame in one chunk)")
+	r.Finish("boundary lengths {0..14,255..257,511,512,4095,4096,8188..8192,65533..65537,70000} + seeded lengths; every in-range write is read back under a seeded chunking (single chunk, 1-byte reads, split header, random, empty reads); read side: 40% valid frames, 20% announced<=12, 20% truncated, 20% random bytes, each under a chunking; packed messages around the 8191-byte scratch buffer; concurrent ServeTCP replies on a wrapped connection; the pipelined client connection (TraditionalDnsConn) with 2-8 queries in flight fed reply bursts under adversarial cuts, and bursts holding a frame that announces 1..12 bytes (random body, or a body that reads as header + id of a query in flight at a wrong offset) between the reply frames: every successful exchange returns exactly its frame, nothing framed behind the short frame is handed out (also replayed on Model.C16.decodeAll, op readall); ServeTCP over loopback TCP / net.Pipe with an 80-160 ms idle timeout fed frames cut inside the header / body / at embedded framed data, with pauses beyond the timeout while a query is in flight (only framed messages may reach the handler; also replayed on Model.C16.serve) and, with a 5 s timeout, without pauses (every frame handled and answered); the real ServeDoQ over quic-go: one frame per stream, and with handlers returning 2.25-2.9 s after the stream was accepted (beyond the 2 s stream deadline), replies of 9-50 KB against a 1-8 KiB client stream window and clients that start reading 2.3-2.8 s late, all in flight together: every reply the handler returned arrives as exactly one frame before FIN (also replayed on Model.C16.doqStream); non-trivial = not (valid frame in one chunk)")
 }
 
 // clientReadLoops16: the client side of stream framing inside the transports. N queries are in flight on one
@@ -511,6 +513,187 @@ func clientReadLoops16(r *Run, rounds int) {
 		}
 		r.Eval(fmt.Sprintf("clientread/%d/%d/%d", how, n, rd), true)
 		r.Count("client-read-loop:" + []string{"one-chunk", "frame+half", "single-bytes", "random"}[how])
+		r.Trace()
+	}
+}
+
+// clientRuntFrames16: a pipelined length-prefixed connection whose server puts a frame announcing 1..12 bytes (with
+// that many body bytes) between valid reply frames, the whole stream cut adversarially. "A length announcing less
+// than a DNS header ... yields an error, never a buffer of another size": every successful exchange must return
+// exactly the frame the server sent for it, and nothing framed after the short frame may be handed out (the read
+// yields an error, the stream is not re-framed). The body of the short frame is random or written so that a reader
+// which goes on at a wrong offset finds a plausible header + the id of a query in flight. The outcome of the
+// callers is also replayed on the model (driver op `readall`: Model.C16.decodeAll on the same stream and chunks).
+func clientRuntFrames16(r *Run, rounds int) {
+	for rd := 0; rd < rounds; rd++ {
+		n := 2 + r.Rng.Intn(6)
+		pre := r.Rng.Intn(n) // replies framed before the short frame; at least one comes after it
+		L := 1 + r.Rng.Intn(12)
+		crafted := r.Rng.Intn(10) < 7
+		if crafted {
+			L = 4 + r.Rng.Intn(9)
+		}
+		how := r.Rng.Intn(4)
+		fc := newFakeConn(rd, true)
+		var mu sync.Mutex
+		var seen [][]byte
+		want := map[int][]byte{} // tag -> reply message as framed by the server
+		var order []int          // tags in stream order
+		var stream, runt []byte
+		var sizes []int
+		pad := make([]int, n)
+		for i := range pad {
+			pad[i] = []int{0, 0, 1, 7, 60, 200, 481, 512}[r.Rng.Intn(8)]
+		}
+		base := r.Rng.Int63()
+		fc.onWrite = func(c *fakeConn, w []byte) error {
+			q := c.payloadOf(w)
+			if len(q) < 12 {
+				return nil
+			}
+			mu.Lock()
+			defer mu.Unlock()
+			seen = append(seen, append([]byte(nil), q...))
+			if len(seen) != n {
+				return nil
+			}
+			qs := append([][]byte(nil), seen...)
+			rnd := rand.New(rand.NewSource(base))
+			rnd.Shuffle(len(qs), func(i, j int) { qs[i], qs[j] = qs[j], qs[i] })
+			for i, q := range qs {
+				if i == pre {
+					body := make([]byte, L)
+					rnd.Read(body)
+					if crafted {
+						victim := qs[pre+rnd.Intn(n-pre)]
+						m := 13 + rnd.Intn(12)
+						body[0], body[1] = byte(m>>8), byte(m)
+						body[2], body[3] = victim[0], victim[1]
+					}
+					runt = append([]byte{0, byte(L)}, body...)
+					stream = append(stream, runt...)
+				}
+				rep := mkReply(q, binary.BigEndian.Uint16(q))
+				for k := 0; k < pad[i]; k++ {
+					rep = append(rep, byte(rnd.Intn(256)))
+				}
+				want[tagOf(q)] = rep
+				order = append(order, tagOf(q))
+				stream = append(stream, c.frame(rep)...)
+			}
+			switch how {
+			case 0: // everything in one chunk
+				sizes = []int{len(stream)}
+			case 1: // single bytes
+				for range stream {
+					sizes = append(sizes, 1)
+				}
+			case 2: // cuts right behind the header of the short frame and inside its body
+				at := 0
+				for i := 0; i < pre; i++ {
+					at += 2 + len(want[order[i]])
+				}
+				cut := 1 + rnd.Intn(L)
+				sizes = []int{at + 2, cut, len(stream) - at - 2 - cut}
+			default:
+				for left := len(stream); left > 0; {
+					k := 1 + rnd.Intn(left)
+					sizes = append(sizes, k)
+					left -= k
+				}
+			}
+			chunks := make([][]byte, 0, len(sizes))
+			rest := stream
+			for _, k := range sizes {
+				chunks = append(chunks, rest[:k])
+				rest = rest[k:]
+			}
+			go func() {
+				for _, ch := range chunks {
+					if len(ch) > 0 {
+						c.feed(ch)
+					}
+				}
+				c.feedErr(io.EOF) // the server closes behind its last frame
+			}()
+			return nil
+		}
+		dc := transport.NewDnsConn(transport.TraditionalDnsConnOpts{WithLengthHeader: true, IdleTimeout: 10 * time.Second, MaxConcurrentQuery: 64}, fc)
+		type res struct {
+			tag  int
+			id   uint16
+			resp *[]byte
+			err  error
+		}
+		out := make([]res, n)
+		var wg sync.WaitGroup
+		for i := 0; i < n; i++ {
+			out[i] = res{tag: 165000 + rd*16 + i, id: uint16(r.Rng.Intn(65536))}
+			wg.Add(1)
+			go func(i int) {
+				defer wg.Done()
+				rx, _ := dc.ReserveNewQuery()
+				if rx == nil {
+					out[i].err = errors.New("cannot reserve")
+					return
+				}
+				ctx, cancel := context.WithTimeout(context.Background(), 4*time.Second)
+				defer cancel()
+				out[i].resp, out[i].err = rx.ExchangeReserved(ctx, mkQuery(out[i].id, out[i].tag))
+			}(i)
+		}
+		wg.Wait()
+		dc.Close()
+		mu.Lock()
+		desc := map[string]any{"transport": "pipelined connection with length header", "queries_in_flight": n,
+			"server_stream": fmt.Sprintf("%d reply frames, then a frame announcing %d bytes: %s, then %d reply frames, then EOF", pre, L, hx(runt), n-pre),
+			"short_frame_body": map[bool]string{true: "a length 13..24 + the wire id of a query in flight + random bytes", false: "random bytes"}[crafted],
+			"reply_sizes_beyond_the_question": fmt.Sprint(pad), "reply_stream_chunks": sizesStr(sizes[:min(len(sizes), 40)])}
+		pos := map[int]int{}
+		for i, t := range order {
+			pos[t] = i
+		}
+		byTag := map[int]res{}
+		for _, o := range out {
+			byTag[o.tag] = o
+		}
+		var parts []string
+		tail := "end"
+		for _, t := range order {
+			o, w := byTag[t], want[t]
+			desc["query_tag"] = t
+			if o.err != nil || o.resp == nil {
+				if o.err != nil {
+					tail = errKind16(errors.Unwrap(o.err))
+					if errors.Unwrap(o.err) == nil {
+						tail = errKind16(o.err)
+					}
+				}
+				continue
+			}
+			got := append([]byte(nil), *o.resp...)
+			if len(got) >= 2 && len(w) >= 2 && binary.BigEndian.Uint16(got) == o.id {
+				copy(got[:2], w[:2]) // back to the wire id
+			}
+			parts = append(parts, sum16(got))
+			if !bytes.Equal(got, w) {
+				desc["got_len"], desc["want_len"], desc["got"] = len(got), len(w), hx(got[:min(len(got), 48)])
+				r.Fail("a caller of a pipelined stream connection was handed bytes the server never sent as one frame (the stream held a frame announcing less than a DNS header)", desc)
+				delete(desc, "got_len")
+				delete(desc, "want_len")
+				delete(desc, "got")
+			} else if pos[t] >= pre {
+				r.Fail("a frame announcing less than a DNS header did not yield an error: the connection went on handing out what follows it on the stream", desc)
+			}
+		}
+		if len(order) == n {
+			r.Line(fmt.Sprintf("readall %s %s", hx(stream), sizesStr(sizes)), strings.Join(parts, ";")+" "+tail)
+		} else {
+			r.Fail("not every query of the round was written to the connection", desc)
+		}
+		mu.Unlock()
+		r.Eval(fmt.Sprintf("clientrunt/%d/%d/%d/%d", how, n, L, rd), true)
+		r.Count("client-read-loop-short-frame:" + []string{"one-chunk", "single-bytes", "cut-in-short-frame", "random"}[how])
 		r.Trace()
 	}
 }
